@@ -237,6 +237,11 @@ class Tr:
             if op == '=' or op == ',': raise Fail('%s: assignment inside an expression (line %s)' % (self.fn, n.get('line')))
             x = self.ev(inner[0]); y = self.ev(inner[1])
             if op in ('&&', '||'): return ('bin', op, self.tobool(x), self.tobool(y))
+            if op in ('<', '<=', '>', '>=') and any('unsigned' in c.get('type', '') for c in inner[:2]) and not (x[0] == 'int' and y[0] == 'int'):
+                # an ordering comparison carried out in an UNSIGNED type (enumerations without negative enumerators are
+                # unsigned): not the integer comparison of the model -> explicit opaque input
+                nm = {'<': 'lt', '<=': 'le', '>': 'gt', '>=': 'ge'}[op]
+                return self.opq('ucmp_%s_%s_%s' % (x[1] if len(x) > 1 else 'e', nm, y[1] if len(y) > 1 else 'e'), 'B')
             if op in CMP:
                 if x[0] == 'strncmp' or y[0] == 'strncmp':
                     s, o = (x, y) if x[0] == 'strncmp' else (y, x)
